@@ -97,6 +97,226 @@ fn directed(out: &mut Out, rng: &mut Rng) {
     scenario(out, rng, Fl::Base, None, "explicit-remint", &[Call::MintId(0, EXPLICIT_BASE + 1), Call::MintId(1, EXPLICIT_BASE), bu(0, EXPLICIT_BASE + 1), Call::MintId(2, EXPLICIT_BASE + 1), tr(2, 1, EXPLICIT_BASE + 1), tr(1, 1, EXPLICIT_BASE), Call::MintSeq(0), bu(1, EXPLICIT_BASE), bu(0, 0), Call::MintSeq(3)]);
 }
 
+fn trf(sp: usize, from: usize, to: usize, id: u32) -> Call { Call::TransferFrom { auths: std::vec![sp], spender: sp, from, to, id } }
+fn buf(sp: usize, from: usize, id: u32) -> Call { Call::BurnFrom { auths: std::vec![sp], spender: sp, from, id } }
+fn apa(o: usize, p: usize) -> Call { Call::ApproveForAll { auths: std::vec![o], owner: o, operator: p, live_until: 900 } }
+
+/// one labelled step of a directed situation: `<flavour>/<class>/<situation>/<kind>/<ok|fail>`
+fn sit(w: &mut World, out: &mut Out, rng: &mut Rng, class: &str, situation: &str, c: Call) -> bool {
+    let (ok, _) = w.step(out, rng, &c);
+    out.label(&format!("{}/{}/{}/{}/{}", w.fl.tag(), class, situation, c.kind(), if ok { "ok" } else { "fail" }));
+    ok
+}
+
+/// K1: the NFT contract's own address, another contract (it authorises by being the invoker: its calls go through
+/// the forwarder) and a classic account nobody holds a key for as OWNERS and RECIPIENTS of tokens in all three
+/// flavours: mints to them, transfers to them, moves by the contract owner (first / middle / last of its tokens),
+/// moves between special addresses, refused moves of what the unsignable ones hold, further mints afterwards.
+/// Balances, owner_of and both enumerations of all six addresses are observed after every call.
+fn special_owners(out: &mut Out, rng: &mut Rng) {
+    for fl in [Fl::Base, Fl::Enum, Fl::Cons] {
+        let mut w = World::new(fl, 3, 10, 1, 1000, None);
+        let sp = w.add_special();
+        let (me, px, acc) = (sp.me, sp.proxy, sp.account);
+        // ids 0..3 -> account 0, 4..6 -> the contract itself, 7..10 -> the calling contract, 11..12 -> the classic
+        // account, 13..14 -> account 1
+        for (to, k, name) in [(0usize, 4u32, "plain"), (me, 3, "own-address"), (px, 4, "contract"), (acc, 2, "account-address"), (1, 2, "plain")] {
+            let s = format!("mint-to-{}", name);
+            match fl {
+                Fl::Cons => { sit(&mut w, out, rng, "k1", &s, Call::BatchMint(to, k)); }
+                _ => { for _ in 0..k { sit(&mut w, out, rng, "k1", &s, Call::MintSeq(to)); } }
+            }
+        }
+        // plain owner -> special recipients (middle, last, first of its tokens)
+        sit(&mut w, out, rng, "k1", "transfer-to-own-address", tr(0, me, 1));
+        sit(&mut w, out, rng, "k1", "transfer-to-contract", tr(0, px, 3));
+        sit(&mut w, out, rng, "k1", "transfer-to-account-address", tr(0, acc, 0));
+        // the contract owner moves its tokens itself (it is the invoker): middle -> the NFT contract, first burned,
+        // self-transfer, last -> the classic account
+        sit(&mut w, out, rng, "k1", "contract-transfers-to-own-address", tr(px, me, 8));
+        sit(&mut w, out, rng, "k1", "contract-burns", bu(px, 7));
+        sit(&mut w, out, rng, "k1", "contract-self-transfer", tr(px, px, 9));
+        sit(&mut w, out, rng, "k1", "contract-transfers-to-account-address", tr(px, acc, 10));
+        // what the NFT contract itself / the classic account hold cannot be moved by anybody
+        for (who, name, id) in [(me, "own-address", 4u32), (acc, "account-address", 11u32)] {
+            let s = format!("{}-owner-unsigned", name);
+            sit(&mut w, out, rng, "k1", &s, Call::Transfer { auths: std::vec![], from: who, to: 2, id });
+            sit(&mut w, out, rng, "k1", &s, Call::Burn { auths: std::vec![], from: who, id: id + 1 });
+            let s = format!("{}-owner-others-sign", name);
+            sit(&mut w, out, rng, "k1", &s, Call::Transfer { auths: std::vec![0, 1, 2, px], from: who, to: 2, id });
+            sit(&mut w, out, rng, "k1", &s, Call::TransferFrom { auths: std::vec![2], spender: 2, from: who, to: 2, id });
+            sit(&mut w, out, rng, "k1", &s, Call::Burn { auths: std::vec![0, 1, 2, px], from: who, id: id + 1 });
+            sit(&mut w, out, rng, "k1", &s, Call::BurnFrom { auths: std::vec![px], spender: px, from: who, id: id + 1 });
+        }
+        // a contract owner that is not the invoker does not move either
+        sit(&mut w, out, rng, "k1", "contract-owner-not-invoking", Call::Transfer { auths: std::vec![], from: px, to: 2, id: 9 });
+        sit(&mut w, out, rng, "k1", "contract-owner-not-invoking", Call::Burn { auths: std::vec![0, 1, 2], from: px, id: 9 });
+        // operators: the contract owner appoints account 1, which moves the contract's tokens to the NFT contract;
+        // account 0 appoints the contract, which takes / burns 0's tokens
+        sit(&mut w, out, rng, "k1", "contract-appoints-operator", apa(px, 1));
+        sit(&mut w, out, rng, "k1", "operator-of-contract-moves-to-own-address", trf(1, px, me, 3));
+        sit(&mut w, out, rng, "k1", "operator-of-contract-burns", buf(1, px, 9));
+        sit(&mut w, out, rng, "k1", "contract-becomes-operator", apa(0, px));
+        sit(&mut w, out, rng, "k1", "contract-operator-moves-to-itself", trf(px, 0, px, 2));
+        // more mints to the special holders after the moves, and a plain transfer onto the contract once more
+        for (to, name) in [(me, "own-address"), (px, "contract"), (acc, "account-address")] {
+            let s = format!("mint-again-to-{}", name);
+            match fl { Fl::Cons => { sit(&mut w, out, rng, "k1", &s, Call::BatchMint(to, 2)); } _ => { sit(&mut w, out, rng, "k1", &s, Call::MintSeq(to)); } }
+        }
+        sit(&mut w, out, rng, "k1", "transfer-to-own-address", tr(1, me, 13));
+        sit(&mut w, out, rng, "k1", "contract-burns", bu(px, 2));
+        out.label(&format!("scenario/{}/special-owners", fl.tag()));
+        w.flush(out, "special-owners");
+    }
+}
+
+/// K2 (consecutive): transfers and burns at k*IDS_IN_BUCKET - 1, k*IDS_IN_BUCKET, k*IDS_IN_BUCKET + 1 for k = 1..=4 of ONE
+/// batch in every relative order, then batches that end exactly before an edge, consist of the edge id only, and
+/// start right after an edge; ids 0, u32::MAX - 1 and u32::MAX named by every call kind.
+fn bucket_edge_catalogue(out: &mut Out, rng: &mut Rng) {
+    let ib = ids_in_bucket();
+    let mut w = World::new(Fl::Cons, 4, 10, 1, 1000, Some(8));
+    w.light_appr = true;
+    fn go(w: &mut World, out: &mut Out, rng: &mut Rng, c: Call) {
+        let ib = ids_in_bucket();
+        let id = match &c { Call::Transfer { id, .. } | Call::Burn { id, .. } => *id, _ => 0 };
+        let edge = match id % ib { 0 => "exact", 1 => "plus1", _ => "minus1" };
+        sit(w, out, rng, "k2", &format!("edge-{}-k{}", edge, (id + 1) / ib), c);
+    }
+    w.step(out, rng, &Call::BatchMint(0, 4 * ib + 5));
+    for c in [tr(0, 1, ib), tr(0, 2, ib - 1), tr(0, 3, ib + 1),
+              bu(0, 2 * ib), tr(0, 1, 2 * ib - 1), bu(0, 2 * ib + 1),
+              tr(0, 1, 3 * ib + 1), tr(0, 2, 3 * ib), bu(0, 3 * ib - 1),
+              bu(0, 4 * ib - 1), bu(0, 4 * ib + 1), tr(0, 3, 4 * ib)] { go(&mut w, out, rng, c); }
+    // ids 4ib+5 .. 5ib-1 (ends right before the edge), 5ib alone, 5ib+1 .. 6ib+1 (starts right after, crosses the next)
+    sit(&mut w, out, rng, "k2", "batch-ends-before-edge", Call::BatchMint(1, ib - 5));
+    sit(&mut w, out, rng, "k2", "batch-of-one-on-edge", Call::BatchMint(2, 1));
+    sit(&mut w, out, rng, "k2", "batch-starts-after-edge", Call::BatchMint(3, ib + 1));
+    for c in [tr(2, 0, 5 * ib), tr(1, 0, 5 * ib - 1), bu(3, 5 * ib + 1), tr(3, 1, 6 * ib), bu(3, 6 * ib + 1), tr(3, 2, 6 * ib - 1)] { go(&mut w, out, rng, c); }
+    out.label("scenario/cons/bucket-edge-catalogue");
+    w.flush(out, "bucket-edge-catalogue");
+
+    // extreme ids on a small consecutive contract: every id queried, plus u32::MAX - 1 and u32::MAX
+    let mut w = World::new(Fl::Cons, 4, 10, 1, 1000, None);
+    w.extra_ids.insert(u32::MAX); w.extra_ids.insert(u32::MAX - 1);
+    w.step(out, rng, &Call::BatchMint(0, 3));
+    for (id, name) in [(u32::MAX, "id-max"), (u32::MAX - 1, "id-max-minus1")] {
+        sit(&mut w, out, rng, "k2", name, tr(0, 1, id));
+        sit(&mut w, out, rng, "k2", name, bu(0, id));
+        sit(&mut w, out, rng, "k2", name, trf(0, 0, 1, id));
+        sit(&mut w, out, rng, "k2", name, buf(0, 0, id));
+        sit(&mut w, out, rng, "k2", name, Call::Approve { auths: std::vec![0], approver: 0, approved: 1, id, live_until: 100 });
+    }
+    sit(&mut w, out, rng, "k2", "id-0", tr(0, 1, 0));
+    sit(&mut w, out, rng, "k2", "id-0", bu(1, 0));
+    sit(&mut w, out, rng, "k2", "id-0-burned", tr(0, 1, 0));
+    sit(&mut w, out, rng, "k2", "id-0-burned", bu(0, 0));
+    sit(&mut w, out, rng, "k2", "id-1-after-0-burned", tr(0, 2, 1));
+    sit(&mut w, out, rng, "k2", "batch-of-one", Call::BatchMint(3, 1));
+    sit(&mut w, out, rng, "k2", "batch-of-one", bu(3, 3));
+    out.label("scenario/cons/extreme-ids");
+    w.flush(out, "extreme-ids");
+}
+
+/// K2 + K6 (enumerable, base): explicit ids minted OUT OF NUMERICAL ORDER (7, 3, MAX, 0, 5, 1, MAX-1, 2), so that the
+/// position of a token in either index list is unrelated to its id, then removals of first / middle / last
+/// entries, re-mints of burned ids and a sequential mint onto the burned id 0.
+fn explicit_out_of_order(out: &mut Out, rng: &mut Rng) {
+    let mx = u32::MAX;
+    for fl in [Fl::Enum, Fl::Base] {
+        let mut w = World::new(fl, 4, 10, 1, 1000, None);
+        for (to, id) in [(0usize, 7u32), (0, 3), (1, mx), (0, 0), (0, 5), (1, 1), (0, mx - 1), (0, 2)] {
+            sit(&mut w, out, rng, "k2", "explicit-unordered", Call::MintId(to, id));
+        }
+        // owner 0: [7, 3, 0, 5, MAX-1, 2], global: [7, 3, MAX, 0, 5, 1, MAX-1, 2]
+        sit(&mut w, out, rng, "k2", "unordered-remove-middle", bu(0, 3));
+        sit(&mut w, out, rng, "k2", "unordered-remove-first", tr(0, 1, 7));
+        sit(&mut w, out, rng, "k2", "unordered-remove-moved", bu(0, 2));
+        sit(&mut w, out, rng, "k2", "unordered-remove-id-max", bu(1, mx));
+        sit(&mut w, out, rng, "k2", "unordered-remove-id-0", tr(0, 2, 0));
+        sit(&mut w, out, rng, "k2", "unordered-remint-burned", Call::MintId(0, 3));
+        sit(&mut w, out, rng, "k2", "unordered-remint-burned", Call::MintId(2, mx));
+        sit(&mut w, out, rng, "k2", "unordered-remove-id-0", bu(2, 0));
+        sit(&mut w, out, rng, "k2", "sequential-onto-burned-id-0", Call::MintSeq(3));
+        sit(&mut w, out, rng, "k2", "unordered-remove-last", bu(0, 3));
+        sit(&mut w, out, rng, "k2", "unordered-remove-id-max", tr(2, 0, mx));
+        sit(&mut w, out, rng, "k2", "unordered-remove-first", bu(0, 5));
+        out.label(&format!("scenario/{}/explicit-out-of-order", fl.tag()));
+        w.flush(out, "explicit-out-of-order");
+    }
+}
+
+/// K6 (enumerable): an owner with 7 tokens (interleaved with another owner's, so that global and per-owner positions
+/// differ) loses the FIRST / MIDDLE / SECOND-TO-LAST / LAST entry of its list in all 24 orders, by burn, transfer,
+/// burn_from and transfer_from in rotation; then one token is added again and the first entry removed once more.
+/// Every index getter (get_token_id k, get_owner_token_id a k for all k) is compared numerically after every call.
+fn swap_pop_orders(out: &mut Out, rng: &mut Rng) {
+    let pos = ['F', 'M', 'S', 'L'];
+    let mut perms: Vec<[usize; 4]> = std::vec![];
+    for a in 0..4 { for b in 0..4 { for c in 0..4 { for d in 0..4 {
+        let p = [a, b, c, d];
+        let mut s = p; s.sort();
+        if s == [0, 1, 2, 3] { perms.push(p); }
+    } } } }
+    for (pi, p) in perms.iter().enumerate() {
+        let mut w = World::new(Fl::Enum, 4, 10, 1, 1000, None);
+        let explicit = pi % 2 == 1;
+        let ids: [u32; 9] = [40, 12, 77, 5, 63, 0, 21, 90, 33];
+        for (k, to) in [0usize, 1, 0, 0, 1, 0, 0, 0, 0].iter().enumerate() {
+            let c = if explicit { Call::MintId(*to, ids[k]) } else { Call::MintSeq(*to) };
+            w.step(out, rng, &c);
+        }
+        w.step(out, rng, &apa(0, 2));
+        let name: String = p.iter().map(|i| pos[*i]).collect();
+        let mut burned: Option<u32> = None;
+        for (step, which) in p.iter().enumerate() {
+            let l: Vec<u32> = w.last.otok[0].iter().filter_map(|x| *x).collect();
+            assert!(l.len() >= 4, "swap-pop-orders: owner list too short: harness bug or broken getter");
+            let idx = match which { 0 => 0, 1 => (l.len() - 1) / 2, 2 => l.len() - 2, _ => l.len() - 1 };
+            let id = l[idx];
+            let c = match (pi + step) % 4 { 0 => bu(0, id), 1 => tr(0, 1, id), 2 => buf(2, 0, id), _ => trf(2, 0, 3, id) };
+            if matches!(c, Call::Burn { .. } | Call::BurnFrom { .. }) { burned = Some(id); }
+            w.step(out, rng, &c);
+        }
+        // re-add (a burned explicit id when there is one) and remove the first entry again
+        let c = match burned { Some(id) if explicit => Call::MintId(0, id), _ => Call::MintSeq(0) };
+        w.step(out, rng, &c);
+        let l: Vec<u32> = w.last.otok[0].iter().filter_map(|x| *x).collect();
+        if let Some(id) = l.first() { w.step(out, rng, &bu(0, *id)); }
+        out.label(&format!("enum/k6/remove-order-{}", name));
+        w.flush(out, &format!("swap-pop-order-{}", name));
+    }
+    out.label("scenario/enum/swap-pop-orders");
+}
+
+/// K5 / K3: equal parties on every move path of every flavour (from == to by transfer AND by transfer_from,
+/// spender == from == to, spender == to, operator == owner), followed by moves of the same owner's other tokens
+fn aliasing(out: &mut Out, rng: &mut Rng) {
+    for fl in [Fl::Base, Fl::Enum, Fl::Cons] {
+        let mut w = World::new(fl, 4, 10, 1, 1000, None);
+        // ids 0..3 -> account 0, 4..6 -> account 1
+        match fl {
+            Fl::Cons => { w.step(out, rng, &Call::BatchMint(0, 4)); w.step(out, rng, &Call::BatchMint(1, 3)); }
+            _ => { for to in [0usize, 0, 0, 0, 1, 1, 1] { w.step(out, rng, &Call::MintSeq(to)); } }
+        }
+        sit(&mut w, out, rng, "k5", "spender-from-to-equal", trf(0, 0, 0, 1));
+        sit(&mut w, out, rng, "k5", "from-equals-to", tr(0, 0, 0));
+        w.step(out, rng, &apa(0, 2));
+        sit(&mut w, out, rng, "k5", "from-equals-to-by-operator", trf(2, 0, 0, 1));
+        sit(&mut w, out, rng, "k5", "spender-equals-to", trf(2, 0, 2, 1));
+        sit(&mut w, out, rng, "k5", "spender-equals-from", buf(0, 0, 3));
+        sit(&mut w, out, rng, "k5", "after-self-moves", bu(0, 0));
+        sit(&mut w, out, rng, "k5", "operator-equals-owner", apa(1, 1));
+        sit(&mut w, out, rng, "k5", "operator-equals-owner", trf(1, 1, 1, 5));
+        sit(&mut w, out, rng, "k5", "from-equals-to", tr(1, 1, 6));
+        sit(&mut w, out, rng, "k5", "after-self-moves", tr(1, 0, 5));
+        sit(&mut w, out, rng, "k5", "after-self-moves", bu(1, 4));
+        sit(&mut w, out, rng, "k5", "from-equals-to-stale-owner", Call::Transfer { auths: std::vec![1], from: 1, to: 1, id: 5 });
+        out.label(&format!("scenario/{}/aliasing", fl.tag()));
+        w.flush(out, "aliasing");
+    }
+}
+
 /// thorough tier: every sequence of three transfers / burns (by the then owner) over a batch of 4 followed
 /// by a batch of 2 - all orders of touching neighbours, batch edges and id 0, every id queried after every step
 fn exhaustive_cons(out: &mut Out, rng: &mut Rng) {
@@ -124,6 +344,11 @@ fn main() {
     let thorough = out.cfg.thorough;
     let scale = out.cfg.scale as usize;
     directed(&mut out, &mut rng);
+    special_owners(&mut out, &mut rng);
+    bucket_edge_catalogue(&mut out, &mut rng);
+    explicit_out_of_order(&mut out, &mut rng);
+    swap_pop_orders(&mut out, &mut rng);
+    aliasing(&mut out, &mut rng);
     persistence_scenarios(&mut out, &mut rng);
     if thorough { exhaustive_cons(&mut out, &mut rng); }
     let (ntr, nsteps) = if thorough { (540 * scale, 60) } else { (144 * scale, 32) };
